@@ -557,7 +557,7 @@ def run_deviation_models(tier='quick'):
     -> dict(ok, rows=[{deviations, invariant, violated, witness}])"""
     groups = [g for g in parse_groups('quick', 'all') if g['id'] in ('full', 'opsv', 'callv', 'dictv', 'linesv')]
     for g in groups:
-        g['maxlen'] = {'full': 2, 'opsv': 5, 'callv': 8, 'dictv': 9, 'linesv': 4}[g['id']]
+        g['maxlen'] = {'full': 2, 'opsv': 5, 'callv': 8, 'dictv': 11, 'linesv': 4}[g['id']]
     d = common.scratch_dir('lexparse')
     rows = []
     ok = True
@@ -575,11 +575,11 @@ def run_deviation_models(tier='quick'):
         r = common.run_tlc('MC_Parse', cfg=tlccfg, env={'LEXPARSE_CFG': cfgfile}, timeout=600)
         wit = None
         if r.invariant_violated:
-            mg = re.search(r'/\\ g = (\d+)', r.out)
-            ms = re.search(r'/\\ s = <<([\d, ]*)>>', r.out)
-            if mg and ms:
-                grp = groups[int(mg.group(1)) - 1]
-                wit = _render_lexemes(grp, [int(x) for x in ms.group(1).split(',') if x.strip()])
+            mg = re.findall(r'/\\ g = (\d+)', r.out)
+            ms = re.findall(r'/\\ s = <<([\d, ]*)>>', r.out)
+            if mg and ms:           # the last state of the error trace
+                grp = groups[int(mg[-1]) - 1]
+                wit = _render_lexemes(grp, [int(x) for x in ms[-1].split(',') if x.strip()])
         if inv is None:
             good = r.ok and not r.invariant_violated
         else:
